@@ -27,6 +27,10 @@ C12Cases ==
   (* module, other version numbers, the same words under :capability:), next to every subset of the real ones      *)
   \cup {[base |-> b, sid |-> "1", ns |-> n, shape |-> "ok", order |-> "before", extra |-> x] :
       b \in SUBSET Versions, n \in {"default", "prefixed"}, x \in Lookalikes}
+  (* a server that lists hundreds or thousands of YANG modules, one capability each: a hello of 30 KB .. 2 MB *)
+  \cup {[base |-> b, sid |-> "1", ns |-> n, shape |-> "ok", order |-> o, extra |-> x] :
+      b \in {{"1.0"}, Versions, {"1.1"}}, n \in {"default", "prefixed"}, o \in {"before", "after"},
+      x \in {"modules-400", "modules-900", "modules-1000", "modules-4000", "modules-30000"}}
   (* what stands around the root element of a well-formed hello: XML declarations in their spellings, comments *)
   \cup {[base |-> b, sid |-> s, ns |-> n, shape |-> "ok", order |-> o, extra |-> "none", decl |-> d] :
       b \in {{"1.0"}, Versions, {"1.1"}}, s \in {"1", "zero"}, n \in {"default", "prefixed"}, o \in {"before", "after"},
